@@ -78,6 +78,28 @@ def step (st : St) (op impl : List String) : St × String × String :=
         | _ => "na"
       (st, m, v)
     | _, _ => (st, "bad-op", "na")
+  -- `site <now> <addr> <action> <cred>`: one attempt as it arrives at the handler of its kind (room API,
+  -- internal hello, resuming hello).  Model: `siteAttempt` over the regenerated facts about that call
+  -- site, plus the answer; judge: the statement's whole attempt — a blocked address is refused whatever
+  -- it presents, a rejected credential is a failure.  Implementation line: `<outcome> <answer>`.
+  | ["site", now, addr, act, cred] =>
+    match toInt? now, parseAddr addr, dec act with
+    | some n, some ad, some a =>
+      match siteOf a, credFails a cred with
+      | some sp, some failed =>
+        let (m', out) := siteAttempt (siteCfg sp.1 sp.2) st.model n ad a failed
+        let answer := match out with
+          | .refused => refusalOf sp.2
+          | _ => credAnswer a cred
+        let (j', v) := match impl.reverse with
+          | _ans :: rest =>
+            match parseOut rest.reverse with
+            | some io => st.judge.observe (.attempt n ad a failed) io
+            | none => (st.judge, "na")
+          | [] => (st.judge, "na")
+        ({ model := m', judge := j' }, showOut out ++ " " ++ answer, v)
+      | _, _ => (st, "bad-op", "na")
+    | _, _, _ => (st, "bad-op", "na")
   | _ =>
   match parseOp op with
   | none => (st, "bad-op", "na")
